@@ -567,6 +567,7 @@ func NewOpLib() *OpLib {
 		}
 		p.Txs = one("lp1", &ctypes.MsgCommitClaimedRewards{Creator: w.A("lp1").Addr.String(), Denom: "uedenb", Amount: amt})
 	})
+	addC20Ops(l)
 	return l
 }
 
